@@ -229,9 +229,16 @@ func checkC07(c *km.Ctx) {
 	if gd := c.MustFunc("R-C07-3", "cmd/keymasterd", "(*RuntimeState).getStorageDataFromStorageStringDataJWT"); gd != nil {
 		typ := KMD + ".storageStringDataJWT"
 		claims := primErrNil("claims verified", RS+"JWTClaims", 0)
-		kind := km.Prim{Name: "token_type == storage_data", Direct: func(f km.Fact) bool {
-			cs, ok := km.ConstString(f.Y)
-			return f.Op == token.EQL && ok && cs == "storage_data" && fieldLoadOf(f.X, typ, "TokenType")
+		kind := km.Prim{Name: "token_type == storage_data", Rel: func(f km.Fact, resolve func(ssa.Value) ssa.Value) bool {
+			if f.Op != token.EQL {
+				return false
+			}
+			for _, pair := range [][2]ssa.Value{{f.X, f.Y}, {f.Y, f.X}} {
+				if cs, ok := km.ConstString(resolve(pair[1])); ok && cs == "storage_data" && fieldLoadOf(resolve(pair[0]), typ, "TokenType") {
+					return true
+				}
+			}
+			return false
 		}}
 		exp := primNotExpiredEpoch(typ)
 		for _, rc := range s.RetCases(gd) {
